@@ -637,3 +637,52 @@ func DrawVerifyCase(t *rapid.T) VerifyCase {
 	}
 	return c
 }
+
+// NearMissY returns, for an x on the curve, a y' such that (x, y') is OFF the curve but y'^2 agrees with x^3-3x+b in most of a word-level
+// representation: the four 64-bit limbs of the right-hand side (plain or Montgomery form) are changed only in a chosen part of one limb
+// (high half, low half, one bit, or the high halves of a limb entirely), and y' is a square root of that value. A curve check that
+// compares limbs partially (one half, folded words, ...) accepts such points. ok=false if no square root was found in 40 tries.
+func NearMissY(t *rapid.T, label string, x *big.Int) (y *big.Int, ok bool) {
+	rinv := new(big.Int).ModInverse(T256, P)
+	for try := 0; try < 40; try++ {
+		rhs := new(big.Int).Exp(x, big.NewInt(3), P)
+		rhs.Sub(rhs, new(big.Int).Mul(big.NewInt(3), x)).Add(rhs, sm2ref.B).Mod(rhs, P)
+		mont := gen.Bool(t, label+".montdomain")
+		v := new(big.Int).Set(rhs)
+		if mont {
+			v.Lsh(v, 256).Mod(v, P)
+		}
+		var mask uint64
+		switch gen.Pick(t, label+".part", "high32", "high32", "low32", "onebit", "high32-all", "high32-every-limb") {
+		case "high32":
+			mask = uint64(gen.Uniform(t, label+".m", 1, 1<<31-1)) << 32
+		case "low32":
+			mask = uint64(gen.Uniform(t, label+".m", 1, 1<<31-1))
+		case "onebit":
+			mask = 1 << uint(gen.Uniform(t, label+".bitpos", 0, 63))
+		case "high32-all":
+			mask = 0xffffffff00000000
+		case "high32-every-limb":
+			m := uint64(gen.Uniform(t, label+".m", 1, 1<<31-1)) << 32
+			for l := 0; l < 4; l++ {
+				v.Xor(v, new(big.Int).Lsh(new(big.Int).SetUint64(m), uint(64*l)))
+			}
+		}
+		if mask != 0 {
+			v.Xor(v, new(big.Int).Lsh(new(big.Int).SetUint64(mask), uint(64*gen.Uniform(t, label+".limb", 0, 3))))
+		}
+		if v.Cmp(P) >= 0 {
+			continue
+		}
+		if mont {
+			v.Mul(v, rinv).Mod(v, P)
+		}
+		if v.Cmp(rhs) == 0 {
+			continue
+		}
+		if r, ok := sm2ref.SqrtP(v); ok {
+			return r, true
+		}
+	}
+	return nil, false
+}
